@@ -38,7 +38,13 @@ impl Gen {
         xs[self.rng.gen_range(0..xs.len())]
     }
     fn atom(&mut self) -> J {
-        match self.rng.gen_range(0..12) {
+        match self.rng.gen_range(0..14) {
+            // fractions, a decimal outside the fixed-point band, a negative number, negative zero
+            12 => [json!({"e":"lit","v":{"t":"num","c":"fin","n":32}}), json!({"e":"lit","v":{"t":"num","c":"dec","s":1,"d":"0.26"}}),
+                   json!({"e":"lit","v":{"t":"num","c":"fin","n":-128}}), json!({"e":"lit","v":{"t":"num","c":"nzero"}}),
+                   json!({"e":"lit","v":{"t":"num","c":"fin","n":96}})][self.rng.gen_range(0..5)].clone(),
+            // the pronoun: whatever was named last (an error when nothing was, e.g. right after a block)
+            13 => if self.rng.gen_bool(0.12) { json!({"e":"pro"}) } else { lit_num(7) },
             // arrays and strings are never copied into themselves (doubling in nested loops is a resource question)
             0..=3 => var(self.pick(&["a", "d", "e", "a", "d", "e", "b"])),
             4..=6 => lit_num(self.rng.gen_range(0..6)),
@@ -47,6 +53,17 @@ impl Gen {
             9 => json!({"e":"lit","v":{"t":"null"}}),
             10 => var(self.pick(&["a", "d"])),
             _ => json!({"e":"lit","v":{"t":"myst"}}),
+        }
+    }
+    fn num_atom(&mut self) -> J {
+        match self.rng.gen_range(0..6) {
+            0 | 1 => var(self.pick(&["a", "d"])),
+            2 => {
+                let n: i64 = [32, -128, 96, 0][self.rng.gen_range(0..4)];
+                json!({"e":"lit","v":{"t":"num","c":"fin","n":n}})
+            }
+            3 => json!({"e":"lit","v":{"t":"num","c":"dec","s":1,"d":"0.26"}}),
+            _ => lit_num(self.rng.gen_range(0..6)),
         }
     }
     fn expr(&mut self, depth: u32) -> J {
@@ -58,11 +75,17 @@ impl Gen {
                 // no multiplication: string x number repetition inside loops is a resource question, not a semantic one
                 let op = ["plus", "minus", "minus", "eq", "ne", "lt", "ge", "and", "or", "nor", "gt", "le"][self.rng.gen_range(0..12)];
                 let n = if self.rng.gen_bool(0.2) { 2 } else { 1 };
+                // ordering and subtraction want numbers on both sides: mostly give them numbers, so that runs go on
+                if matches!(op, "lt" | "ge" | "gt" | "le" | "minus") && self.rng.gen_bool(0.95) {
+                    let r: Vec<J> = (0..n).map(|_| self.num_atom()).collect();
+                    return json!({"e":"bin","op":op,"l":self.num_atom(),"r":r});
+                }
                 let r: Vec<J> = (0..n).map(|_| self.expr(depth - 1)).collect();
                 json!({"e":"bin","op":op,"l":self.expr(depth - 1),"r":r})
             }
-            5 => if self.rng.gen_bool(0.7) { json!({"e":"un","op":"not","x":self.expr(depth - 1)}) } else { json!({"e":"un","op":"neg","x":var(self.pick(&["a", "d"]))}) },
-            6 => json!({"e":"idx","a":var(self.pick(VARS)),"k": if self.rng.gen_bool(0.7) { lit_num(self.rng.gen_range(0..3)) } else { lit_str("k") }}),
+            5 => if self.rng.gen_bool(0.7) { json!({"e":"un","op":"not","x":self.expr(depth - 1)}) } else { json!({"e":"un","op":"neg","x":self.num_atom()}) },
+            // mostly the variables that hold arrays (c: queue, z: pieces of a cut string); now and then anything
+            6 => json!({"e":"idx","a":var(if self.rng.gen_bool(0.93) { self.pick(&["c", "c", "z"]) } else { self.pick(VARS) }),"k": if self.rng.gen_bool(0.7) { lit_num(self.rng.gen_range(0..3)) } else { lit_str("k") }}),
             7 if self.calls_ok => {
                 let f = self.pick(FUNS);
                 let n = if f == "f" { 1 } else { 2 };
@@ -111,16 +134,18 @@ impl Gen {
             4 => {
                 let op = ["plus", "minus", "plus"][self.rng.gen_range(0..3)];
                 let n = if self.rng.gen_bool(0.3) { 2 } else { 1 };
-                let vals: Vec<J> = (0..n).map(|_| self.expr(1)).collect();
-                json!({"s":"assign","line":l,"dest":var(self.pick(&["a", "d", "e"])),"op":op,"vals":vals})
+                // a and d stay numbers: numeric operands for them; e takes anything
+                let dest = self.pick(&["a", "d", "e"]);
+                let vals: Vec<J> = (0..n).map(|_| if dest == "e" || self.rng.gen_bool(0.03) { self.expr(1) } else { self.num_atom() }).collect();
+                json!({"s":"assign","line":l,"dest":var(dest),"op":op,"vals":vals})
             }
-            5 => json!({"s": if self.rng.gen_bool(0.5) {"inc"} else {"dec"},"line":l,"dest": if self.rng.gen_bool(0.9) { var(self.pick(&["a", "d", "e", "a", "d", "a", "d", "e", "a", "d", "a", "d", "e", "a", "d", "a", "d", "e", "a", "d", "b"])) } else { json!({"e":"pro"}) },"n":self.rng.gen_range(1..3)}),
+            5 => json!({"s": if self.rng.gen_bool(0.5) {"inc"} else {"dec"},"line":l,"dest": if self.rng.gen_bool(0.9) { var(self.pick(&["a", "d", "a", "a", "d", "a", "d", "a", "a", "d", "a", "d", "a", "a", "d", "a", "d", "e", "a", "d", "a", "d", "a", "a", "d", "a", "d", "a", "a", "d", "a", "d", "a", "a", "d", "a", "d", "e", "a", "d", "b"])) } else { json!({"e":"pro"}) },"n":self.rng.gen_range(1..3)}),
             6 => {
                 let n = self.rng.gen_range(0..3);
                 let vals: Vec<J> = (0..n).map(|_| self.expr(1)).collect();
                 json!({"s":"rock","line":l,"a":var(self.pick(&["c", "c", "c", "e"])),"vals":vals})
             }
-            7 => json!({"s":"rollst","line":l,"a":var(self.pick(&["c", "c", "c", "c", "c", "c", "c", "c", "c", "c", "c", "c", "c", "c", "c", "c", "c", "c", "c", "c", "c", "c", "c", "c", "a"])),"dest": if self.rng.gen_bool(0.6) { var(self.pick(&["a", "d"])) } else { none }}),
+            7 => json!({"s":"rollst","line":l,"a":var(self.pick(&["c", "c", "c", "c", "c", "c", "c", "c", "c", "c", "c", "c", "c", "c", "c", "c", "c", "c", "c", "c", "c", "c", "c", "c", "a"])),"dest": if self.rng.gen_bool(0.6) { var(self.pick(&["e", "e", "e", "e", "e", "e", "e", "e", "e", "e", "e", "e", "e", "e", "e", "e", "e", "e", "e", "a"])) } else { none }}),
             8 => json!({"s":"listen","line":l,"dest": if self.rng.gen_bool(0.7) { var(self.pick(&["b", "e"])) } else { none }}),
             9 => {
                 let t = ["x y", "a,b", ""][self.rng.gen_range(0..3)];
@@ -140,8 +165,11 @@ impl Gen {
                 let with_dest = self.rng.gen_bool(0.5);
                 let operand = match op { "cut" => "b", "join" => if self.rng.gen_bool(0.97) { "z" } else { "c" }, _ => if self.rng.gen_bool(0.97) { "a" } else { "e" } };
                 let with_dest = with_dest || op != "cast";
-                json!({"s":"mut","line":l,"op":op,"operand":var(operand),"dest": if with_dest { var("z") } else { none.clone() },
-                       "param": if self.rng.gen_bool(0.4) { lit_str(",") } else { none }})
+                // cut b (a string) into z (an array of strings), join z into y, cast a (a number) into y: each variable keeps its kind
+                let dest = if op == "cut" { "z" } else { "y" };
+                let param = if op != "cast" || self.rng.gen_bool(0.03) { if self.rng.gen_bool(0.4) { lit_str(",") } else { none.clone() } } else { none.clone() };
+                json!({"s":"mut","line":l,"op":op,"operand":var(operand),"dest": if with_dest { var(dest) } else { none.clone() },
+                       "param": param})
             }
             12 | 13 => {
                 let c = self.expr(2);
@@ -213,6 +241,31 @@ impl Gen {
     }
 }
 
+/// A one-character string outside the model's alphabet (TLC reads a non-ASCII character as several `?`) is recorded as what the
+/// model calls it: {"t":"str1"}, some one-character string.
+fn trace_val(j: J) -> J {
+    match j {
+        J::Object(mut m) => {
+            if m.get("t").and_then(|t| t.as_str()) == Some("str") {
+                let s = m["s"].as_str().unwrap_or("");
+                let mut cs = s.chars();
+                if let (Some(c), None) = (cs.next(), cs.next()) {
+                    if !c.is_ascii() {
+                        return json!({"t":"str1"});
+                    }
+                }
+                return J::Object(m);
+            }
+            for (_, v) in m.iter_mut() {
+                *v = trace_val(v.take());
+            }
+            J::Object(m)
+        }
+        J::Array(a) => J::Array(a.into_iter().map(trace_val).collect()),
+        x => x,
+    }
+}
+
 /// the observed statement event in the model's snapshot schema
 fn event_model_schema(ev: &rrss::verif::StmtEvent) -> J {
     use rrss::frontend::ast::VariableName;
@@ -229,7 +282,7 @@ fn event_model_schema(ev: &rrss::verif::StmtEvent) -> J {
                     m.insert(
                         name(k),
                         match e {
-                            rrss::verif::EntrySnapshot::Var(v) => json!({"var": jv::from_val(v)}),
+                            rrss::verif::EntrySnapshot::Var(v) => json!({"var": trace_val(jv::from_val(v))}),
                             rrss::verif::EntrySnapshot::Func { arity } => json!({"func": arity}),
                         },
                     );
